@@ -101,7 +101,14 @@ void verif_sweep_stub(struct GC* gc) { sweep_calls++; }
 #define MAXCALLS 12
 static var rec_recurse[MAXCALLS]; static int n_recurse = 0;
 static var rec_item[MAXCALLS]; static int n_item = 0;
-void verif_recurse_stub(struct GC* gc, var p) { if (n_recurse < MAXCALLS) rec_recurse[n_recurse] = p; n_recurse++; }
+static int recurse_before_mark = 0;
+void verif_recurse_stub(struct GC* gc, var p) {
+  if (n_recurse < MAXCALLS) rec_recurse[n_recurse] = p; n_recurse++;
+  /* the object must already carry its mark when it is entered: otherwise a cycle re-enters it for ever */
+  _Bool marked = 0;
+  for (size_t i = 0; i < NS; i++) if (gc->entries[i].hash != 0 && gc->entries[i].ptr == p && gc->entries[i].marked) marked = 1;
+  if (!marked) recurse_before_mark++;
+}
 void verif_item_stub(void* gc, void* p) { if (n_item < MAXCALLS) rec_item[n_item] = p; n_item++; }
 static uint64_t STK[NK + 2];
 var cello_verif_stack_top(var top) { return IN.dir ? (var)&STK[NK] : (var)&STK[1]; }
@@ -117,6 +124,7 @@ var cello_verif_stack_top(var top) { return IN.dir ? (var)&STK[NK] : (var)&STK[1
 #define OP_MARK_ITEM 9
 #define OP_RECURSE 10
 #define OP_MARK_TOP 11
+#define OP_SWEEP_OWN 12
 
 #if NS == 1
 #define MAXN 0
@@ -314,6 +322,7 @@ V_HARNESS {
   if (p == pc && c_in) {
     V_ASSERT(gc->entries[at].marked, "mark_item: a registered object reached by a pointer is marked");
     V_ASSERT(n_recurse == (was_marked ? 0 : 1) && (was_marked || rec_recurse[0] == pc), "mark_item: recurses into the object exactly once, on its unmarked->marked transition");
+    V_ASSERT(recurse_before_mark == 0, "mark_item: the object is marked BEFORE it is entered (cycles and self-references terminate)");
   } else V_ASSERT(n_recurse == 0, "mark_item: unregistered, foreign, unaligned and NULL words are ignored");
 #elif OP == OP_RECURSE
   build_graph();
@@ -332,10 +341,43 @@ V_HARNESS {
       else if (gc->entries[i].marked) ok = 0;
     }
     V_ASSERT(ok && n_recurse == roots, "mark: every root-registered object is marked and entered exactly once, nothing else is marked at the top level");
+    V_ASSERT(recurse_before_mark == 0, "mark: a root is marked BEFORE it is entered (cycles through roots terminate)");
     V_ASSERT(n_item == NK, "mark: exactly the words of the stack segment between the current top and the recorded bottom are scanned");
     _Bool all = 1;
     for (int w = 0; w < NK; w++) { _Bool found = 0; for (int j = 0; j < NK; j++) if (j < n_item && rec_item[j] == (var)STK[1 + w]) found = 1; if (!found) all = 0; }
     V_ASSERT(all, "mark: every stack word reaches the marker (either stack direction)"); }
+#elif OP == OP_SWEEP_OWN
+  /* ownership inside a sweep, concrete layout: cell 0 (a Box-like owner) owns cell 1; both registered in adjacent
+   * slots in either order (-DSWAP), both unreachable or only one of them (marks symbolic).  destruct(owner)
+   * re-enters the collector with rem(gc, owned) exactly as Box_Del does. */
+  {
+    for (size_t i = 0; i < NS; i++) { gc->entries[i].ptr = NULL; gc->entries[i].hash = 0; gc->entries[i].root = 0; gc->entries[i].marked = 0; }
+#ifdef SWAP
+    long first = 1, second = 0;
+#else
+    long first = 0, second = 1;
+#endif
+    gc->entries[1].ptr = cell_at(first);  gc->entries[1].hash = 2; gc->entries[1].marked = IN.marked[0] & 1;
+    gc->entries[2].ptr = cell_at(second); gc->entries[2].hash = 3; gc->entries[2].marked = IN.marked[1] & 1;
+    gc->nitems = 2;
+    V_ASSUME(IN.GH[first] == 1 && IN.GH[second] == 2);
+    for (long i = 0; i < NC; i++) V_ASSUME(IN.own[i] == (i == 0 ? 1 : -1));
+    V_ASSUME(inv(gc, NS, 0));
+    _Bool owner_marked = first == 0 ? (IN.marked[0] & 1) : (IN.marked[1] & 1);
+    _Bool owned_marked = first == 1 ? (IN.marked[0] & 1) : (IN.marked[1] & 1);
+    GC_Sweep(gc);
+    V_WITNESS("ownership sweep completed");
+    V_ASSERT(order_ok, "nothing released before it was finalised");
+    if (!owner_marked) {
+      V_ASSERT(finalised[0] == 1 && freed[0] == 1, "the unreachable owner is finalised and released exactly once");
+      V_ASSERT(finalised[1] == 1 && freed[1] == 1, "the object it owns is finalised and released exactly once -- whether it was queued by the same sweep or not, and whichever of the two sits first in the registry");
+    } else {
+      V_ASSERT(finalised[0] == 0 && freed[0] == 0, "a reachable owner survives");
+      V_ASSERT(finalised[1] == (owned_marked ? 0 : 1) && freed[1] == finalised[1], "its pointee is reclaimed only if it was itself unreachable, exactly once");
+    }
+    size_t q = 0;
+    V_ASSERT(!(finalised[0] && reg_find(gc, NS, 0, &q)) && !(finalised[1] && reg_find(gc, NS, 1, &q)), "finalised objects are no longer registered");
+  }
 #elif OP == OP_REHASH
   V_ASSUME(inv(gc, NS, 0) || 1);
 #endif
